@@ -166,6 +166,17 @@ def check_case(case):
                         bad("not-the-documented-bound", "get_lipschitz",
                             f"block {k}: L={L[k]!r}, sup-curvature lambda_max(X_B^T diag(h) X_B)={true[k]!r}")
                         break
+                # a `lipschitz` attribute filled by initialize() is the same constant by another door (LogisticGroup)
+                try:
+                    La = np.asarray(df.lipschitz, float)
+                except Exception:  # noqa -- no such attribute for this datafit
+                    La = None
+                if La is not None and La.shape == (len(blocks),):
+                    for k in range(len(blocks)):
+                        if not (La[k] >= true[k] * (1 - 1e-12) and La[k] <= true[k] * (1 + 1e-9) + 1e-300):
+                            bad("not-the-documented-bound", "lipschitz(attribute)",
+                                f"block {k}: attribute set by initialize() = {La[k]!r}, sup-curvature = {true[k]!r}")
+                            break
                 # LogisticGroup only inherits Logistic's feature-wise *_sparse methods; GroupBCD refuses it on
                 # CSC input (no gradient_g_sparse), so its get_lipschitz_sparse is never a group constant: not claimed.
                 if hasattr(df, "get_lipschitz_sparse") and nm != "LogisticGroup":
